@@ -5,6 +5,7 @@ import (
 	"go/token"
 	"go/types"
 
+	"verif/checker/internal/orderdom"
 	"verif/checker/internal/pathsim"
 	"verif/checker/internal/prog"
 )
@@ -151,7 +152,7 @@ func init() {
 					mut[r.P.Field("storage/snapshots", "jobSnapshot", d)] = true
 				}
 				var wasVar, okVar types.Object
-				ast.Inspect(f.Decl.Body, func(nd ast.Node) bool {
+				inspect(f.Decl.Body, func(nd ast.Node) bool {
 					as, ok := nd.(*ast.AssignStmt)
 					if !ok || len(as.Lhs) != 2 || len(as.Rhs) != 1 {
 						return true
@@ -198,7 +199,7 @@ func init() {
 				}
 				// the flag set is flags[sender] = true for the same key as the lookup
 				okSet := false
-				ast.Inspect(f.Decl.Body, func(nd ast.Node) bool {
+				inspect(f.Decl.Body, func(nd ast.Node) bool {
 					as, ok := nd.(*ast.AssignStmt)
 					if !ok || len(as.Lhs) != 1 || len(as.Rhs) != 1 {
 						return true
@@ -256,29 +257,34 @@ func init() {
 			info := ic.Pkg.TypesInfo
 			every := r.P.FuncObj("util/iteru", "Every")
 			r.Site(ic.Decl.Pos(), "isComplete conjoins both completion maps")
-			ok := false
-			if len(ic.Decl.Body.List) == 1 {
-				if ret, isRet := ic.Decl.Body.List[0].(*ast.ReturnStmt); isRet && len(ret.Results) == 1 {
-					if b, isB := ast.Unparen(ret.Results[0]).(*ast.BinaryExpr); isB && b.Op == token.LAND {
-						sides := []ast.Expr{b.X, b.Y}
-						seen := map[string]bool{}
-						for _, sd := range sides {
-							call, isCall := ast.Unparen(sd).(*ast.CallExpr)
-							if !isCall || r.P.CalleeFunc(info, call) != every || len(call.Args) != 1 {
-								continue
-							}
-							if inner, okc := isCallToNamed(info, call.Args[0], "maps", "Values"); okc && len(inner.Args) == 1 {
-								if f := prog.SelField(info, inner.Args[0]); f != nil {
-									seen[f.Name()] = true
-								}
-							}
-						}
-						ok = seen["sourceRunnerIDsComplete"] && seen["operatorIDsComplete"]
+			// every call Every(maps.Values(s.<flags>)) in the body is an operand named after its map; the
+			// function's result must be the conjunction of the two, whatever the control flow spelling
+			names := map[string]string{}
+			inspect(ic.Decl.Body, func(nd ast.Node) bool {
+				call, isCall := nd.(*ast.CallExpr)
+				if !isCall || r.P.CalleeFunc(info, call) != every || len(call.Args) != 1 {
+					return true
+				}
+				if inner, okc := isCallToNamed(info, call.Args[0], "maps", "Values"); okc && len(inner.Args) == 1 {
+					if f := prog.SelField(info, inner.Args[0]); f != nil {
+						names[types.ExprString(call)] = f.Name()
 					}
 				}
-			}
-			if !ok {
-				r.Fail(ic.Name()+":shape", ic.Decl.Pos(), nil, "isComplete is not `Every(values(sourceRunnerIDsComplete)) && Every(values(operatorIDsComplete))`: a job checkpoint could be published before every node acknowledged")
+				return true
+			})
+			m := orderdom.New(info, names)
+			res := m.CheckFunc(ic.Decl.Body, nil, func(e odEnv) orderdom.Value {
+				return orderdom.Bool(e.Bool["sourceRunnerIDsComplete"] && e.Bool["operatorIDsComplete"])
+			})
+			switch {
+			case res.Undecided != "":
+				r.Error("undecided: %s: %s", ic.Name(), res.Undecided)
+			case res.Mismatch != nil || len(names) < 2:
+				detail := "an operand is missing"
+				if res.Mismatch != nil {
+					detail = res.Mismatch.String()
+				}
+				r.Fail(ic.Name()+":shape", ic.Decl.Pos(), nil, "isComplete is not `Every(values(sourceRunnerIDsComplete)) && Every(values(operatorIDsComplete))` (%s): a job checkpoint could be published before every node acknowledged", detail)
 			}
 			// iteru.Every is a conjunction: returns false on the first false, true at the end
 			ev := r.P.Func("util/iteru", "Every")
@@ -313,7 +319,7 @@ func init() {
 				}
 				isNew := func(c *pathsim.Ctx, ev *pathsim.Event) bool { return callTo(newSnap)(c, ev) }
 				r.mustPrecede(f.Decl, f.Name(), "checkpointID++", "newJobSnapshot", isInc, isNew)
-				ast.Inspect(f.Decl.Body, func(nd ast.Node) bool {
+				inspect(f.Decl.Body, func(nd ast.Node) bool {
 					if call, ok := nd.(*ast.CallExpr); ok && r.P.CalleeFunc(f.Pkg.TypesInfo, call) == newSnap {
 						if len(call.Args) < 1 || prog.SelField(f.Pkg.TypesInfo, call.Args[0]) != ckID {
 							r.Fail(f.Name()+":new-id", call.Pos(), nil, "the new pending snapshot is not created with the store's checkpoint id counter")
@@ -359,7 +365,7 @@ func init() {
 			// LoadCheckpoint does restore the counter
 			lc := r.P.Func("storage/snapshots", "(*Store).LoadCheckpoint")
 			restored := false
-			ast.Inspect(lc.Decl.Body, func(nd ast.Node) bool {
+			inspect(lc.Decl.Body, func(nd ast.Node) bool {
 				if as, ok := nd.(*ast.AssignStmt); ok && len(as.Lhs) == 1 && prog.SelField(lc.Pkg.TypesInfo, as.Lhs[0]) == ckID {
 					restored = true
 				}
@@ -371,7 +377,7 @@ func init() {
 			// ... on EVERY path that installs a loaded checkpoint (savepoint branch and directory scan alike)
 			completed := r.P.Field("storage/snapshots", "storeState", "completedSnapshots")
 			var loadedVar types.Object // the local `var loaded *JobCheckpoint` that starts nil
-			ast.Inspect(lc.Decl.Body, func(nd ast.Node) bool {
+			inspect(lc.Decl.Body, func(nd ast.Node) bool {
 				if ds, ok := nd.(*ast.DeclStmt); ok && loadedVar == nil {
 					if gd, ok := ds.Decl.(*ast.GenDecl); ok {
 						for _, sp := range gd.Specs {
@@ -460,7 +466,7 @@ func init() {
 			info := tp.Pkg.TypesInfo
 			want := map[string]string{"Id": "id", "OperatorCheckpoints": "operatorCheckpoints", "SplitStates": "splitStates", "SplitterState": "splitterState", "CheckpointId": "id"}
 			got := map[string]string{}
-			ast.Inspect(tp.Decl.Body, func(nd ast.Node) bool {
+			inspect(tp.Decl.Body, func(nd ast.Node) bool {
 				if kv, ok := nd.(*ast.KeyValueExpr); ok {
 					if id, ok := kv.Key.(*ast.Ident); ok {
 						if f := prog.SelField(info, kv.Value); f != nil {
@@ -480,7 +486,7 @@ func init() {
 			li := lc.Pkg.TypesInfo
 			wantBack := map[string]string{"id": "Id", "operatorCheckpoints": "OperatorCheckpoints", "splitStates": "SplitStates", "splitterState": "SplitterState"}
 			gotBack := map[string]string{}
-			ast.Inspect(lc.Decl.Body, func(nd ast.Node) bool {
+			inspect(lc.Decl.Body, func(nd ast.Node) bool {
 				if kv, ok := nd.(*ast.KeyValueExpr); ok {
 					if id, ok := kv.Key.(*ast.Ident); ok {
 						if f := prog.SelField(li, kv.Value); f != nil {
@@ -504,7 +510,7 @@ func (r *Run) checkEvery(f *prog.FuncInfo) {
 	info := f.Pkg.TypesInfo
 	r.Site(f.Decl.Pos(), "iteru.Every is a conjunction")
 	var loop *ast.RangeStmt
-	ast.Inspect(f.Decl.Body, func(nd ast.Node) bool {
+	inspect(f.Decl.Body, func(nd ast.Node) bool {
 		if rs, ok := nd.(*ast.RangeStmt); ok && loop == nil {
 			loop = rs
 		}
@@ -523,7 +529,7 @@ func (r *Run) checkEvery(f *prog.FuncInfo) {
 	}
 	// inside: if !v { return false }
 	okInner := false
-	ast.Inspect(loop.Body, func(nd ast.Node) bool {
+	inspect(loop.Body, func(nd ast.Node) bool {
 		is, ok := nd.(*ast.IfStmt)
 		if !ok {
 			return true
